@@ -26,6 +26,7 @@ pub struct Case {
 }
 #[derive(Default)]
 pub struct Stats {
+    traces: std::collections::HashSet<u64>,
     schedules: u64,
     interleaved: u64,
     both_ok: u64,
@@ -116,6 +117,7 @@ async fn run_schedule<TC: Tcfg>(sc: &Scenario, mgr: Mgr, policy: &Policy, st: &m
     ensure!(!trace.deadlock, "sched-deadlock", "{what}: actors did not finish (deadlock or livelock)");
     if trace.preemptions > 0 {
         st.interleaved += 1;
+        st.traces.insert(fp(&trace.steps));
     }
     let c = TC::CFG;
     let base = model_after(c, &sc.key, &sc.init_batches);
@@ -238,8 +240,15 @@ pub fn check(case: &Case, ctx: &mut Ctx) -> R {
     ctx.count("schedules_with_a_failed_publish", st.some_err);
     ctx.count("max_decision_points", st.max_steps as u64);
     ctx.class(&format!("{:?}", case.mgr));
+    // every schedule is one execution; distinct non-trivial = distinct preempting interleavings (actor-per-step traces) of this scenario
+    if ctx.counting {
+        ctx.evals += st.schedules.saturating_sub(1);
+    }
+    let cfp = fp_json(&(&case.hist, case.concurrent, case.mgr, case.cfg));
+    for t in &st.traces {
+        ctx.nontrivial(fp(&(cfp, *t)));
+    }
     if st.interleaved > 0 {
-        ctx.nontrivial(fp_json(case));
         ctx.sample(&serde_json::json!({"cfg": case.cfg, "hist": case.hist, "concurrent": case.concurrent, "mgr": case.mgr, "n_random_schedules": case.schedules.len(), "enumerate": case.enumerate}));
     }
     r
@@ -333,7 +342,7 @@ pub fn run(eng: &mut Engine) {
     eng.assume("all publishes are issued on clones of one Directory (sharing its storage manager), cached and uncached");
     eng.prop_part(
         "schedules",
-        "generated scenarios: 0-3 sequential publishes then 2-3 concurrent publish calls (overlapping / disjoint labels, no-ops, rejected batches) on clones of one directory; per scenario the non-preemptive schedule, ALL single preemptions, a strided sample of double preemptions and generated random schedules; oracle: some sequential order of the successful calls reproduces every returned (epoch, root) on the model, final state (same + fresh instance), lookups and audit(e0, final) agree with it, failed calls leave no trace, no transaction left open; non-trivial = scenario run under at least one preempting schedule; distinct by case",
+        "generated scenarios: 0-3 sequential publishes then 2-3 concurrent publish calls (overlapping / disjoint labels, no-ops, rejected batches) on clones of one directory; per scenario the non-preemptive schedule, ALL single preemptions, a strided sample of double preemptions and generated random schedules; oracle: some sequential order of the successful calls reproduces every returned (epoch, root) on the model, final state (same + fresh instance), lookups and audit(e0, final) agree with it, failed calls leave no trace, no transaction left open; evaluations = schedules executed; non-trivial = schedule with at least one preemption, distinct by (scenario, actor-per-step trace)",
         eng.tier.pick(64, 480),
         move || strategy(thorough),
         check,
